@@ -348,12 +348,12 @@ structure QCirc where
   gates : List AGate
   deriving Repr, Inhabited
 
-/-- `_selfqc.get_key_by_index(i)`: `for key in reversed(qubit_map.keys())`, the **last** name
-mapped to `i` (the library raises when there is none; compiled circuits name every wire) -/
+/-- `_qubit_name(_selfqc, i)`: `get_key_by_index(i)` (`for key in reversed(qubit_map.keys())`,
+the **last** name mapped to `i`), or `q<i>` when the qubit has no name -/
 def keyOf (qc : QCirc) (i : Nat) : String :=
   match qc.qubitMap.reverse.find? (·.2 == i) with
   | some p => p.1
-  | none => "?"
+  | none => s!"q{i}"
 
 /-- body line: `\t{g.__name__.lower()} {" ".join(qbs)}\n` (gates without parameter only:
 the compilers emit X/CX/CCX/MCX) -/
@@ -361,7 +361,7 @@ def gateLine (qc : QCirc) (g : AGate) : String :=
   "\t" ++ g.cls.name.toLower ++ " " ++ " ".intercalate (g.wires.map (keyOf qc)) ++ "\n"
 
 def gateDef (qc : QCirc) : String :=
-  "gate " ++ qc.name ++ " " ++ " ".intercalate (qc.qubitMap.map (·.1)) ++ " {\n"
+  "gate " ++ qc.name ++ " " ++ " ".intercalate ((List.range qc.numQubits).map (keyOf qc)) ++ " {\n"
     ++ String.join ((qc.gates.filter (fun g => !g.cls.isNop)).map (gateLine qc)) ++ "}\n\n"
 
 def applyLine (qc : QCirc) : String :=
